@@ -14,6 +14,12 @@
 (*      validators, statistics, withdraw queue and staking records as the  *)
 (*      live object" -- live = reopened (getters) = reopened (enumerated), *)
 (*      all readable, and the reopened state has the returned roots.       *)
+(*      The same across a restart ("committing and reopening loses         *)
+(*      nothing"): once the committed roots are flushed to disk            *)
+(*      (TrieDB().Commit, as WriteBlockWithState does), state.New over a   *)
+(*      FRESH state.Database on the same disk shows the dump the live      *)
+(*      object showed at that commit (`disk`, `diskraw` at Flush; `live`,  *)
+(*      `raw` at Restart).                                                 *)
 (*  CopyEqualsOriginal   "a copy of a state is equal to ... the original"  *)
 (*  CopyIndependent      "... and independent of the original": an object  *)
 (*      nobody writes to (the copy while the original is written, or the   *)
@@ -42,8 +48,10 @@ VARIABLES l,
           mtag,    \* class tags of the main object ("midtx": it descends from a copy taken inside a transaction;
                    \* "copied": it is a copy, not yet reopened)
           ftags,   \* class tags of the frozen objects
+          clive,   \* <<live dump of the last Commit / Reload / Restart of the main object>> or <<>>
+          flive,   \* <<live dump at the commit whose roots were flushed last>> or <<>>
           viol, fired
-vars == <<l, seen, frozen, unc, taint, txopen, mtag, ftags, viol, fired>>
+vars == <<l, seen, frozen, unc, taint, txopen, mtag, ftags, clive, flive, viol, fired>>
 
 Comp == <<"accounts", "validators", "stat", "index", "queue", "records", "relations", "error">>
 Err(d) == d[8] # ""
@@ -63,6 +71,16 @@ Reopen(e) ==
    ELSE LET d == Diff(e.live, e.re) \cup { "enum:" \o x : x \in Diff(e.live, e.raw) }
                  \cup (IF e.reroots # e.roots THEN {"roots"} ELSE {}) IN
         IF d = {} THEN {} ELSE { <<"ReopenEqualsLive", d \cup Tags, l, 0>> }
+
+\* the flushed roots read from the disk alone
+DiskReopen(e) ==
+   IF e.ev = "Flush" /\ clive # <<>> /\ ~Err(clive[1])
+   THEN LET d == { "disk:" \o x : x \in Diff(clive[1], e.disk) } \cup { "diskenum:" \o x : x \in Diff(clive[1], e.diskraw) } IN
+        IF d = {} THEN {} ELSE { <<"ReopenEqualsLive", d \cup Tags, l, 0>> }
+   ELSE IF e.ev = "Restart" /\ flive # <<>> /\ ~Err(flive[1])
+   THEN LET d == { "disk:" \o x : x \in Diff(flive[1], e.live) } \cup { "diskenum:" \o x : x \in Diff(flive[1], e.raw) } IN
+        IF d = {} THEN {} ELSE { <<"ReopenEqualsLive", d \cup Tags, l, 0>> }
+   ELSE {}
 
 CopyEq(e) ==
    IF e.ev \notin {"Copy", "CopySwap"} THEN {}
@@ -87,9 +105,10 @@ SameRoots(e) ==
    { <<"SameContentSameRoots", RootDiff(seen[o[1]][1], o[2]) \cup o[3] \cup seen[o[1]][3], l, seen[o[1]][2]>> :
         o \in { p \in Usable(e) : p[1] \in DOMAIN seen /\ seen[p[1]][1] # p[2] } }
 
-ZeroFired == [Reopens |-> 0, CopyEqs |-> 0, Indeps |-> 0, RootObsN |-> 0, RootsCompared |-> 0, Failures |-> 0, Contents |-> 0]
+ZeroFired == [DiskReopens |-> 0, Reopens |-> 0, CopyEqs |-> 0, Indeps |-> 0, RootObsN |-> 0, RootsCompared |-> 0, Failures |-> 0, Contents |-> 0]
 
 Init == /\ l = 1 /\ seen = <<>> /\ frozen = <<>> /\ unc = {} /\ taint = FALSE /\ txopen = FALSE /\ mtag = {} /\ ftags = <<>>
+        /\ clive = <<>> /\ flive = <<>>
         /\ viol = {} /\ fired = ZeroFired
 
 RECURSIVE AddAll(_, _)
@@ -103,31 +122,35 @@ Step ==
    /\ LET e == TraceLog[l] IN
       IF e.ev \in {"reset", "abort"}
       THEN /\ frozen' = <<>> /\ unc' = {} /\ taint' = FALSE /\ txopen' = FALSE /\ mtag' = {} /\ ftags' = <<>>
+           /\ clive' = <<>> /\ flive' = <<>>
            /\ UNCHANGED <<seen, viol, fired>>
       ELSE IF "panic" \in DOMAIN e
       THEN /\ viol' = viol \cup Fresh({ <<"Readable", {e.ev} \cup Tags, l, 0>> })
            /\ fired' = [fired EXCEPT !.Failures = @ + 1]
-           /\ UNCHANGED <<seen, frozen, unc, taint, txopen, mtag, ftags>>
-      ELSE LET C == Reopen(e) \cup CopyEq(e) \cup Indep(e) \cup SameRoots(e)
+           /\ UNCHANGED <<seen, frozen, unc, taint, txopen, mtag, ftags, clive, flive>>
+      ELSE LET C == Reopen(e) \cup DiskReopen(e) \cup CopyEq(e) \cup Indep(e) \cup SameRoots(e)
                U == Usable(e) IN
            /\ viol' = viol \cup Fresh(C)
            /\ seen' = AddAll(seen, U)
            /\ frozen' = CASE e.ev = "Copy" -> Append(frozen, e.copy)
                           [] e.ev = "CopySwap" -> Append(frozen, e.orig)
                           [] OTHER -> frozen
-           /\ unc' = IF e.ev \in {"Commit", "Reload"} THEN {} ELSE unc \cup {e.ev}
+           /\ clive' = IF e.ev \in {"Commit", "Reload", "Restart"} THEN <<e.live>> ELSE clive
+           /\ flive' = IF e.ev = "Flush" THEN clive ELSE flive
+           /\ unc' = IF e.ev \in {"Commit", "Reload", "Restart"} THEN {} ELSE unc \cup {e.ev}
            /\ LET mid == IF txopen THEN {"midtx"} ELSE {} IN
               /\ ftags' = CASE e.ev = "Copy" -> Append(ftags, MainTags \cup mid \cup (IF CopyEq(e) # {} THEN {"tainted"} ELSE {}))
                              [] e.ev = "CopySwap" -> Append(ftags, MainTags)
                              [] OTHER -> ftags
               /\ mtag' = CASE e.ev = "CopySwap" -> mtag \cup mid \cup {"copied"}
-                            [] e.ev = "Reload" -> mtag \ {"copied"}
+                            [] e.ev \in {"Reload", "Restart"} -> mtag \ {"copied"}
                             [] OTHER -> mtag
-           /\ txopen' = CASE e.ev \in {"Finalise", "Root", "Commit", "Reload", "CopySwap", "End"} -> FALSE
-                           [] e.ev = "Copy" -> txopen
+           /\ txopen' = CASE e.ev \in {"Finalise", "Root", "Commit", "Reload", "CopySwap", "End", "Restart"} -> FALSE
+                           [] e.ev \in {"Copy", "Flush", "GC"} -> txopen
                            [] OTHER -> TRUE
-           /\ taint' = (taint \/ (e.ev = "CopySwap" /\ CopyEq(e) # {}) \/ Reopen(e) # {})
-           /\ fired' = [fired EXCEPT !.Reopens = @ + (IF e.ev \in {"Commit", "Reload"} THEN 1 ELSE 0),
+           /\ taint' = (taint \/ (e.ev = "CopySwap" /\ CopyEq(e) # {}) \/ Reopen(e) # {} \/ DiskReopen(e) # {})
+           /\ fired' = [fired EXCEPT !.DiskReopens = @ + (IF (e.ev = "Flush" /\ clive # <<>>) \/ (e.ev = "Restart" /\ flive # <<>>) THEN 1 ELSE 0),
+                                     !.Reopens = @ + (IF e.ev \in {"Commit", "Reload"} THEN 1 ELSE 0),
                                      !.CopyEqs = @ + (IF e.ev \in {"Copy", "CopySwap"} THEN 1 ELSE 0),
                                      !.Indeps = @ + (IF "fz" \in DOMAIN e THEN Len(e.fz) ELSE 0),
                                      !.RootObsN = @ + Cardinality(U),
